@@ -98,6 +98,15 @@ Theorem C18_unknown_type_is_unresolvable : forall fx d im s,
 Proof. exact unknown_type_unresolvable. Qed.
 Print Assumptions C18_unknown_type_is_unresolvable.
 
+(* `inherit: P` inside `Host(P <- Iface)`: the parent is looked up globally, the binding does not provide it; without a
+   global definition P the result is UnresolvableDependency (never the expect("unreachable: parse order ..") of transform_module) *)
+Theorem C18_inherit_of_own_binding : forall fx d im p,
+  In im (d_modules d) -> md_inherit (snd im) = Some p -> is_binding (tc_args (fst im)) p = true ->
+  (forall im', In im' (d_modules d) -> tc_ident (fst im') <> p) ->
+  transform fx d = Err K_UNRESOLVABLE_DEPENDENCY.
+Proof. exact inherit_of_own_binding_unresolvable. Qed.
+Print Assumptions C18_inherit_of_own_binding.
+
 Theorem C18_dependency_cycle_is_unresolvable : forall fx d (C : list (TypClause Generic * ModuleDef)),
   C <> [] -> incl C (d_modules d) ->
   (forall im, In im C -> exists im', In im' C /\ In (tc_ident (fst im')) (required_symbols (fst im) (snd im))) ->
